@@ -255,6 +255,19 @@ fn run_scenario(rep: &mut Report, case_seed: u64) {
         let _ = h.join();
     }
     let recs = recs.lock().unwrap().clone();
+    // what the schedule looked like from the API boundary: per snapshot version, how many
+    // queries answered and how many were cancelled (bucketed) - the distinct shapes seen are
+    // reported as evidence of interleaving diversity
+    {
+        let bucket = |n: usize| match n { 0 => "0", 1 => "1", 2..=3 => "2-3", 4..=7 => "4-7", 8..=31 => "8-31", _ => "32+" };
+        let mut shape = format!("r{n_readers}");
+        for v in 0..versions.len() {
+            let a = recs.iter().filter(|r| r.tag == v && matches!(r.outcome, RecOutcome::Ok(..))).count();
+            let c = recs.iter().filter(|r| r.tag == v && matches!(r.outcome, RecOutcome::Cancelled)).count();
+            shape.push_str(&format!("|a{}c{}", bucket(a), bucket(c)));
+        }
+        rep.see("interleaving_shapes(per version: answered/cancelled, bucketed)", shape);
+    }
 
     // expected answers per version, sequentially, fresh hosts
     let expected: Vec<Vec<String>> = versions
